@@ -24,6 +24,14 @@ fn check_u(v: u64, prev: Option<u64>, rep: &mut Report) {
     let expect_ok = v <= SAFE;
     let r = U53::try_from(v);
     rep.eval(1);
+    // comparisons of a truncated value with a raw integer - in range or not - agree with the integers
+    for a in [0u64, 1, 255, 1 << 32, SAFE - 1, SAFE] {
+        let ax = U53::try_from(a).expect("anchor in range");
+        rep.count("mixed_comparisons", 1);
+        if ax.partial_cmp(&v) != Some(a.cmp(&v)) || (ax == v) != (a == v) || (ax < v) != (a < v) || (ax > v) != (a > v) || (ax <= v) != (a <= v) || (ax >= v) != (a >= v) {
+            viol(rep, "U53", "mixed-ord", "disagrees-with-integers", format!("U53({a}) vs {v}"));
+        }
+    }
     rep.cell(format!("U53|try_from|bits{}|{}", bits_u(v), expect_ok));
     match (&r, expect_ok) {
         (Ok(_), false) => viol(rep, "U53", "try_from", "accepts-out-of-range", v.to_string()),
@@ -94,6 +102,13 @@ fn check_i(v: i64, prev: Option<i64>, rep: &mut Report) {
     let expect_ok = v >= -(SAFE as i64) && v <= SAFE as i64;
     let r = I54::try_from(v);
     rep.eval(1);
+    for a in [-(SAFE as i64), -(SAFE as i64) + 1, -(1i64 << 32), -1, 0, 1, 1 << 32, SAFE as i64 - 1, SAFE as i64] {
+        let ax = I54::try_from(a).expect("anchor in range");
+        rep.count("mixed_comparisons", 1);
+        if ax.partial_cmp(&v) != Some(a.cmp(&v)) || (ax == v) != (a == v) || (ax < v) != (a < v) || (ax > v) != (a > v) || (ax <= v) != (a <= v) || (ax >= v) != (a >= v) {
+            viol(rep, "I54", "mixed-ord", "disagrees-with-integers", format!("I54({a}) vs {v}"));
+        }
+    }
     let b = bits_u(v.unsigned_abs());
     rep.cell(format!("I54|try_from|{}bits{}|{}", if v < 0 { "-" } else { "+" }, b, expect_ok));
     match (&r, expect_ok) {
@@ -300,7 +315,7 @@ pub fn run(ctx: &Ctx) -> (Spec, Report) {
     let spec = Spec {
         level: "exploration",
         rule: format!(
-            "every u64/i64 within 2^12 of 0, ±2^k (k=0..63), ±(2^53-1), the 64-bit extremes — exhaustive — plus {draws} seeded draws stratified by bit length; each value goes through TryFrom, serde_json literal parsing, conversion back, JSON and f64 round trips, narrowing, ordering against the previous value; a cell is distinct by (type, operation, sign, bit length, expected accept/reject)"
+            "every u64/i64 within 2^12 of 0, ±2^k (k=0..63), ±(2^53-1), the 64-bit extremes — exhaustive — plus {draws} seeded draws stratified by bit length; each value goes through TryFrom, serde_json literal parsing, conversion back, JSON and f64 round trips, narrowing, ordering against the previous value, and mixed comparisons (==, <, >, <=, >=, partial_cmp) of nine in-range anchors with the raw value whether it is in range or not; a cell is distinct by (type, operation, sign, bit length, expected accept/reject)"
         ),
         assumptions: vec![
             "the typeshare crate is linked from VERIF_REPO/lib with release semantics (no overflow checks)".into(),
